@@ -7,11 +7,13 @@
 // thread continues is delegated to the Chooser supplied by the harness (the
 // E1 explorer), so all interleavings at synchronisation operations are
 // enumerated.  Blocking operations are modelled by disabling the thread.
+//
+// Race-detector builds: every function of this package is //go:norace and the
+// hand-off between threads is wrapped in runtime.RaceDisable/RaceEnable, so the
+// scheduler adds NO happens-before edge between threads: the race detector
+// sees only the edges the shim primitives declare (mutex, pool, atomics), i.e.
+// the edges the real program has.
 package sched
-
-import (
-	"fmt"
-)
 
 // Chooser answers scheduling and environment decisions.
 // preempt is true when picking anything but alternative 0 switches away from a
@@ -21,30 +23,32 @@ type Chooser interface {
 	Env(n int, label string) int
 }
 
+// Waiter is a blocking condition; Ready must be a //go:norace method.
+type Waiter interface{ Ready() bool }
+
 type Thread struct {
 	ID      int
 	wake    chan struct{}
+	joined  chan struct{} // closed when the thread ends: a real happens-before edge thread -> caller of Go
 	done    bool
-	blocked func() bool // non-nil while disabled: reports whether the thread may proceed now
+	blocked Waiter // non-nil while disabled
 	why     string
 	Panic   interface{}
-	Stack   string
+	body    func()
 }
 
 type Run struct {
-	ch        Chooser
-	threads   []*Thread
-	cur       *Thread
-	finished  chan struct{}
-	Deadlock  string
-	Steps     int
-	Horizon   int
-	Livelock  bool
-	Trace     []string
-	KeepTrace bool
-	OnPoint   func(r *Run, label string) // invariant hook evaluated at every scheduling point
-	aborted   bool
-	inHook    bool
+	ch       Chooser
+	threads  []*Thread
+	cur      *Thread
+	finished chan struct{}
+	Deadlock string
+	Steps    int
+	Horizon  int
+	Livelock bool
+	OnPoint  func(label string) // invariant hook evaluated at every scheduling point (must be norace)
+	aborted  bool
+	inHook   bool
 }
 
 var active *Run
@@ -54,12 +58,18 @@ var envOnly Chooser
 
 // SetEnv installs the chooser for environment decisions (pool answers) made
 // outside a scheduled run; nil restores the deterministic default (answer 0).
+//
+//go:norace
 func SetEnv(c Chooser) { envOnly = c }
 
 // Active reports whether the calling code runs inside a scheduled run.
+//
+//go:norace
 func Active() bool { return active != nil }
 
 // Env asks for an environment decision in [0,n); 0 is the default answer.
+//
+//go:norace
 func Env(n int, label string) int {
 	if n <= 1 {
 		return 0
@@ -75,7 +85,13 @@ func Env(n int, label string) int {
 
 type abortRun struct{}
 
+// IsAbort reports whether a recovered panic value is the scheduler unwinding a
+// thread of an aborted run; harness code that recovers panics must re-panic it.
+func IsAbort(p interface{}) bool { _, ok := p.(abortRun); return ok }
+
 // Point is a scheduling point: called by a managed thread before a visible operation.
+//
+//go:norace
 func Point(label string) {
 	r := active
 	if r == nil {
@@ -84,41 +100,44 @@ func Point(label string) {
 	r.yield(label)
 }
 
-// Block disables the current thread until ready() holds, then returns.  ready
-// is evaluated only while no other thread runs.
-func Block(label string, ready func() bool) {
+// Block disables the current thread until w.Ready() holds, then returns.
+//
+//go:norace
+func Block(label string, w Waiter) {
 	r := active
 	if r == nil {
-		if !ready() {
+		if !w.Ready() {
 			panic("sched: blocking operation would block forever outside a scheduled run: " + label)
 		}
 		return
 	}
 	t := r.cur
-	for !ready() {
-		t.blocked, t.why = ready, label
+	for !w.Ready() {
+		t.blocked, t.why = w, label
 		r.yield(label)
 	}
 	t.blocked = nil
 }
 
-func (r *Run) enabled() []*Thread {
-	var en []*Thread
+//go:norace
+func (r *Run) enabled(buf []*Thread) []*Thread {
+	en := buf[:0]
 	// canonical order: the running thread first if still enabled, then ascending ids
-	if c := r.cur; c != nil && !c.done && (c.blocked == nil || c.blocked()) {
+	if c := r.cur; c != nil && !c.done && (c.blocked == nil || c.blocked.Ready()) {
 		en = append(en, c)
 	}
 	for _, t := range r.threads {
 		if t == r.cur || t.done {
 			continue
 		}
-		if t.blocked == nil || t.blocked() {
+		if t.blocked == nil || t.blocked.Ready() {
 			en = append(en, t)
 		}
 	}
 	return en
 }
 
+//go:norace
 func (r *Run) yield(label string) {
 	me := r.cur
 	if r.aborted {
@@ -130,37 +149,34 @@ func (r *Run) yield(label string) {
 	r.Steps++
 	if r.OnPoint != nil {
 		r.inHook = true
-		r.OnPoint(r, label)
+		r.OnPoint(label)
 		r.inHook = false
 	}
 	if r.Horizon > 0 && r.Steps > r.Horizon {
 		r.Livelock = true
-		r.abort()
+		r.aborted = true
 		panic(abortRun{})
 	}
 	next := r.pick(label)
 	if next == nil {
-		// nobody can run
 		r.Deadlock = r.describeBlocked()
-		r.abort()
+		r.aborted = true
 		panic(abortRun{})
-	}
-	if r.KeepTrace {
-		r.Trace = append(r.Trace, fmt.Sprintf("T%d@%s->T%d", me.ID, label, next.ID))
 	}
 	if next == me {
 		return
 	}
 	r.cur = next
-	next.wake <- struct{}{}
-	<-me.wake
+	handOff(next.wake, me.wake)
 	if r.aborted {
 		panic(abortRun{})
 	}
 }
 
+//go:norace
 func (r *Run) pick(label string) *Thread {
-	en := r.enabled()
+	var buf [8]*Thread
+	en := r.enabled(buf[:])
 	if len(en) == 0 {
 		return nil
 	}
@@ -171,93 +187,91 @@ func (r *Run) pick(label string) *Thread {
 	return en[r.ch.Sched(len(en), preempt, label)]
 }
 
+//go:norace
 func (r *Run) describeBlocked() string {
 	s := ""
 	for _, t := range r.threads {
 		if !t.done {
-			s += fmt.Sprintf("T%d blocked at %s; ", t.ID, t.why)
+			s += "T" + string(rune('0'+t.ID)) + " blocked at " + t.why + "; "
 		}
 	}
 	return s
 }
 
-func (r *Run) abort() { r.aborted = true }
+//go:norace
+func (r *Run) firstUnfinished() *Thread {
+	for _, x := range r.threads {
+		if !x.done {
+			return x
+		}
+	}
+	return nil
+}
 
-// IsAbort reports whether a recovered panic value is the scheduler unwinding a
-// thread of an aborted run; harness code that recovers panics must re-panic it.
-func IsAbort(p interface{}) bool { _, ok := p.(abortRun); return ok }
+//go:norace
+func (r *Run) threadMain(t *Thread) {
+	waitWake(t.wake)
+	defer r.threadExit(t)
+	if r.aborted {
+		return
+	}
+	t.body()
+}
+
+//go:norace
+func (r *Run) threadExit(t *Thread) {
+	if p := recover(); p != nil {
+		if !IsAbort(p) {
+			t.Panic = p
+		}
+	}
+	t.done = true
+	close(t.joined)
+	var next *Thread
+	if r.aborted {
+		next = r.firstUnfinished()
+	} else if r.firstUnfinished() != nil {
+		next = r.pick("exit")
+		if next == nil {
+			r.Deadlock = r.describeBlocked()
+			r.aborted = true
+			next = r.firstUnfinished()
+		}
+	}
+	if next == nil {
+		close(r.finished) // a real happens-before edge to the caller of Go (join)
+		return
+	}
+	r.cur = next
+	wakeOnly(next.wake)
+}
 
 // Go runs the given bodies as threads 0..n-1 under the chooser and returns when
 // all have finished (or the run was aborted on deadlock / livelock, in which
 // case the remaining threads are unwound one at a time).
-func Go(ch Chooser, horizon int, keepTrace bool, onPoint func(r *Run, label string), bodies ...func()) *Run {
+//
+//go:norace
+func Go(ch Chooser, horizon int, onPoint func(label string), bodies ...func()) *Run {
 	if active != nil {
 		panic("sched: nested Run")
 	}
-	r := &Run{ch: ch, finished: make(chan struct{}), Horizon: horizon, KeepTrace: keepTrace, OnPoint: onPoint}
+	r := &Run{ch: ch, finished: make(chan struct{}), Horizon: horizon, OnPoint: onPoint}
 	for i := range bodies {
-		r.threads = append(r.threads, &Thread{ID: i, wake: make(chan struct{}, 1)})
+		r.threads = append(r.threads, &Thread{ID: i, wake: make(chan struct{}, 1), joined: make(chan struct{}), body: bodies[i]})
 	}
 	active = r
-	for i, b := range bodies {
-		t, body := r.threads[i], b
-		go func() {
-			<-t.wake
-			defer func() {
-				if p := recover(); p != nil {
-					if !IsAbort(p) {
-						t.Panic = p
-					}
-				}
-				t.done = true
-				var next *Thread
-				if r.aborted {
-					for _, x := range r.threads {
-						if !x.done {
-							next = x
-							break
-						}
-					}
-				} else {
-					left := false
-					for _, x := range r.threads {
-						if !x.done {
-							left = true
-						}
-					}
-					if left {
-						next = r.pick("exit")
-						if next == nil {
-							r.Deadlock = r.describeBlocked()
-							r.abort()
-							for _, x := range r.threads {
-								if !x.done {
-									next = x
-									break
-								}
-							}
-						}
-					}
-				}
-				if next == nil {
-					close(r.finished)
-					return
-				}
-				r.cur = next
-				next.wake <- struct{}{}
-			}()
-			if r.aborted {
-				return
-			}
-			body()
-		}()
+	for _, t := range r.threads {
+		go r.threadMain(t) // goroutine creation: a real edge from the caller to each thread (fork)
 	}
 	// initial decision: which thread starts (a free choice)
 	r.cur = nil
 	first := r.pick("start")
 	r.cur = first
-	first.wake <- struct{}{}
+	wakeOnly(first.wake)
 	<-r.finished
+	for _, t := range r.threads {
+		<-t.joined
+	}
 	active = nil
 	return r
 }
@@ -265,7 +279,9 @@ func Go(ch Chooser, horizon int, keepTrace bool, onPoint func(r *Run, label stri
 // Threads exposes per-thread results.
 func (r *Run) Threads() []*Thread { return r.threads }
 
-// Cur returns the id of the running thread (-1 outside a run).
+// CurID returns the id of the running thread (-1 outside a run).
+//
+//go:norace
 func CurID() int {
 	if r := active; r != nil && r.cur != nil {
 		return r.cur.ID
